@@ -8,7 +8,6 @@ import (
 	"fmt"
 	"os"
 	"runtime"
-	"sort"
 	"strings"
 	"sync/atomic"
 	"time"
@@ -88,12 +87,26 @@ func blockedInSend() bool {
 	return false
 }
 
+// leaked reports that the scheduler's mutex is held although the worker is idle and no
+// API call is in progress (the synchronous driver has just returned from a worker arm or
+// an API call): a critical section was left without unlocking.
+func (x *exec) leaked() bool {
+	if !x.d.GuardHeld() {
+		return false
+	}
+	time.Sleep(50 * time.Millisecond) // a blocked sender of an earlier call leaving its critical section
+	return x.d.GuardHeld()
+}
+
 // call performs an API call that may block on a full request channel.
 // code 0: returned v.  code 1: blocked in the send with the mutex free (the call has
 // taken effect on the map: its size moved by delta).  code 2: blocked holding the mutex.
 func (x *exec) call(mayBlock bool, delta int, f func() int64) (code int64, v int64, pc pendingCall) {
 	if !mayBlock {
-		return 0, f(), pc
+		if v, ok := guarded(f); ok {
+			return 0, v, pc
+		}
+		return 2, 0, pc // cannot block on a channel here: stuck on the mutex
 	}
 	before, _ := x.d.TrySize()
 	pc = pendingCall{done: make(chan int64, 1)}
@@ -200,15 +213,8 @@ func TickDrainLimit(d sched.VerifDriver, limit time.Duration) (panicked, stalled
 
 func probeSx(impl int64, d sched.VerifDriver) Sx {
 	nodes, ok := d.Probe()
-	if impl == ImplHeap {
-		// array order as it is; the nodes outside the array (level -1) by id
-		n := 0
-		for n < len(nodes) && nodes[n].Level == 0 {
-			n++
-		}
-		out := nodes[n:]
-		sort.SliceStable(out, func(i, j int) bool { return out[i].ID < out[j].ID })
-	}
+	// heap: the array in array order, then the nodes outside the array (level -1) in the
+	// order the worker has seen them — exactly as the driver lists them
 	l := []Sx{Bool(ok)}
 	for _, n := range nodes {
 		l = append(l, Ints(int64(n.Level), int64(n.Slot), int64(n.ID), n.Deadline, n.Period))
@@ -614,10 +620,23 @@ loop:
 			if code >= 2 {
 				break loop
 			}
-		case OpSize:
-			obs = append(obs, Ints(int64(x.tm.Size())))
-		case OpIsSched:
-			obs = append(obs, List(Bool(x.tm.IsScheduled(int(op.At(1).Int64())))))
+		case OpSize, OpIsSched:
+			// guarded: a mutex that was left locked would hang the query for good
+			isSize := op.At(0).Int64() == OpSize
+			v, ok := guarded(func() int64 {
+				if isSize {
+					return int64(x.tm.Size())
+				}
+				if x.tm.IsScheduled(int(op.At(1).Int64())) {
+					return 1
+				}
+				return 0
+			})
+			if !ok {
+				obs = append(obs, Ints(2, 0)) // never returned: blocked on the scheduler's mutex
+				break loop
+			}
+			obs = append(obs, Ints(v))
 		case OpHandleAdd, OpHandleDel:
 			add := op.At(0).Int64() == OpHandleAdd
 			var handled bool
@@ -631,6 +650,9 @@ loop:
 			switch {
 			case panicked:
 				obs = append(obs, Ints(2))
+				break loop
+			case x.leaked():
+				obs = append(obs, Ints(5)) // the arm returned with the mutex still locked
 				break loop
 			case handled:
 				obs = append(obs, Ints(1))
@@ -665,11 +687,16 @@ loop:
 			if stalled {
 				l[0] = Int(4) // the ticker arm never returned
 			}
+			leakedLock := false
+			if !panicked && !stalled && x.leaked() {
+				l[0] = Int(5) // the ticker arm returned with the mutex still locked
+				leakedLock = true
+			}
 			for _, o := range ords {
 				l = append(l, Int(o))
 			}
 			obs = append(obs, ListOf(l))
-			if panicked || stalled {
+			if panicked || stalled || leakedLock {
 				break loop
 			}
 		case OpProbe:
